@@ -42,6 +42,7 @@ type sOp struct {
 	Limit  int64             `json:"limit,omitempty"`
 	TTL    int64             `json:"ttl,omitempty"`
 	Certs  bool              `json:"certs,omitempty"`
+	CertMask int             `json:"cert_mask,omitempty"` // 1 = ca, 2 = cert, 4 = key
 	Bypass bool              `json:"bypass,omitempty"`
 	Proc   bool              `json:"with_processing,omitempty"`
 	Ident  string            `json:"ident,omitempty"`
@@ -147,8 +148,19 @@ func c23Apply(ctx context.Context, st store.Store, op sOp) (bool, string) {
 		return true, strings.Join(l, ",")
 	case "add-node":
 		o := &types.AddNodeOptions{Nodename: op.Node, Endpoint: sim.Prefix + op.Node, Podname: op.Pod, Labels: op.Labels}
-		if op.Certs {
-			o.Ca, o.Cert, o.Key = "ca-"+op.Node, "cert-"+op.Node, "key-"+op.Node
+		mask := op.CertMask
+		if op.Certs && mask == 0 {
+			mask = 7
+		}
+		// a node may carry any part of the TLS material (only the non-empty pieces are stored)
+		if mask&1 != 0 {
+			o.Ca = "ca-" + op.Node
+		}
+		if mask&2 != 0 {
+			o.Cert = "cert-" + op.Node
+		}
+		if mask&4 != 0 {
+			o.Key = "key-" + op.Node
 		}
 		n, err := st.AddNode(ctx, o)
 		if err != nil {
@@ -464,7 +476,11 @@ func c23GenOp1(r *rand.Rand, m *c23Model) sOp {
 	case k < 14:
 		return sOp{Kind: "get-all-pods"}
 	case k < 24:
-		return sOp{Kind: "add-node", Node: node, Pod: pod, Labels: lab, Certs: r.Intn(3) == 0}
+		op := sOp{Kind: "add-node", Node: node, Pod: pod, Labels: lab}
+		if r.Intn(2) == 0 {
+			op.CertMask = 1 + r.Intn(7)
+		}
+		return op
 	case k < 28:
 		return sOp{Kind: "remove-node", Node: node, Pod: realPod(node)}
 	case k < 31:
